@@ -13,7 +13,7 @@ PROPERTY = "C09"
 LEVEL = "exploration"
 BUDGET_S = {"quick": 50, "thorough": 900}
 FLOOR = {"quick": 3000, "thorough": 100000}
-MUST_REACH = ("table_entries_judged", "protocol_numbers_judged", "splitter_cases_judged", "number_roundtrips_judged", "platform_switch_histories", "config_level_renderings", "protocol_reassign_histories", "generated_line_renderings", "nested_switch_renderings")
+MUST_REACH = ("table_entries_judged", "protocol_numbers_judged", "splitter_cases_judged", "number_roundtrips_judged", "platform_switch_histories", "config_level_renderings", "protocol_reassign_histories", "generated_line_renderings", "nested_switch_renderings", "generated_protocol_lines")
 RULE = ("complete enumeration: {asa,ios,nxos} x version strings {'', '15', '15.2(02)SY', '16.09.06', '9.3(8)'} x {tcp,udp} x "
         "every table name (name -> number vs oracle/names.py; number -> rendered name -> parsed back), every protocol "
         "number 0..255 x platform x protocol_nr x has_port and every protocol name x platform, one ACE per table name on "
@@ -228,6 +228,28 @@ def run(ctx) -> None:
             ctx.count("generated_line_renderings")
             ctx.judged(sig=("range_ports", platform, proto, side), n=len(nums))
             ctx.judged(sig=("cfg", func, platform, version, proto), n=len(nums))
+
+    # 1c. generated protocol lines: the switch changes the spelling of the protocol, never a number of the line
+    #     (template whose sequence number equals its own protocol number; every protocol as request)
+    for platform in ("ios", "nxos"):
+        for num in range(1, 256):
+            if not mine():
+                continue
+            req = 255 - num if 255 - num != num else 0
+            for nr in (False, True):
+                case = {"function": "range_protocols", "platform": platform, "template_number": num, "request": req, "protocol_nr": nr}
+                try:
+                    lines = cisco_acl.range_protocols(protocols=str(req), line=f"{num} permit {num} any any", platform=platform,
+                                                      protocol_nr=nr)
+                    sem = reader.read_ace(lines[0]) if len(lines) == 1 else None
+                except Exception as ex:  # pylint: disable=broad-except
+                    ctx.violation(case, "range_protocols raised / rendered an unreadable line", f"{type(ex).__name__}: {str(ex)[:150]}")
+                    continue
+                if sem is None or sem["seq"] != num or sem["proto"] != req:
+                    ctx.violation(case, "a generated protocol line changed a number (sequence or protocol) with the switch setting",
+                                  {"lines": lines[:3], "expected": f"sequence {num}, protocol {req}"})
+                ctx.count("generated_protocol_lines")
+            ctx.judged(sig=("range_protocols", platform, num))
 
     # 2. protocols
     for platform in PLATFORMS:
